@@ -122,7 +122,7 @@ func directedScenarios() []directed {
 		out = append(out, directed{"capture-mutable-" + site, func(g *gen) {
 			g.lenient = true
 			e := g.instantiate(exporterSpec("e", 0)).Inst
-			g.call(e, "gset0", 2) // created with 1; both 1 and 2 are in range below
+			g.call(e, "gset0", 2)  // created with 1; both 1 and 2 are in range below
 			g.call(e, "gsetf6", 3) // created with L0, now L3 (another signature)
 			g.call(e, "st8", 1, 0x11)
 			spec := &ModSpec{Name: "i", ID: 1,
@@ -196,6 +196,30 @@ func directedScenarios() []directed {
 			}
 		}})
 	}
+	// ---- the callee (another instance, or the host) grows / writes the shared object, the caller reads it in the same function
+	out = append(out, directed{"call-then-read-in-one-function", func(g *gen) {
+		g.sc.Host, g.m.host = true, true
+		e := g.instantiate(exporterSpec("e", 0)).Inst
+		fimp := func(name string) ImportSpec {
+			f := e.funcs[e.lay.ByName[name]]
+			return ImportSpec{Mod: "e", Name: name, Ext: Ext{Kind: wenc.ExtFunc, Func: f.typ}}
+		}
+		i := g.instantiate(&ModSpec{Name: "i", ID: 1, Imports: []ImportSpec{
+			fimp("mgrow"), fimp("tgrow0"), fimp("gset0"), fimp("st8"), fimp("tset0"),
+			{Mod: "env", Name: "hgrow", Host: true, Ext: Ext{Kind: wenc.ExtFunc, Func: hostTypes["hgrow"]}},
+			impMem("e", wenc.Limits{Min: 1}), impTab("e", wenc.Limits{Min: 1}), impG("e", 0, gt(wenc.I32, true))}}).Inst
+		g.call(e, "st8", 5, 0x55)
+		g.call(i, "cim0", 1, 5, 65536+7)             // e.mgrow(1) then load from the new page
+		g.call(i, "cim3", 65536+7, 0x77, 5, 65536+7) // e.st8 into the new page then load it
+		g.call(i, "cim5", 1, 5, 2*65536+9)           // host grows through api.Memory then load from the new page
+		g.call(i, "cig2", 41)                        // e.gset0(41) then global.get
+		g.call(i, "cig0", 0)                         // unrelated callee: global unchanged
+		g.call(i, "cit1", 2, 1, 5)                   // e.tgrow0(2, L1) then table.size / table.get in the grown part
+		g.call(i, "cit4", 0, 2, 0)                   // e.tset0(0, L2) then table.get
+		g.call(i, "cim0", 1, 5, 3*65536+1)           // grows to the maximum
+		g.call(i, "cim0", 1, 5, 0)                   // grow fails
+		g.sweep()
+	}})
 	// ---- segments that are in range only because the exporter has grown
 	out = append(out, directed{"segments-in-grown-region", func(g *gen) {
 		e := g.instantiate(exporterSpec("e", 0)).Inst
